@@ -88,7 +88,8 @@ Proof. unfold ainsert. cbn. intros [H|H]; [inversion H; auto | right; eapply are
 
 Definition gd_ok (gd : list nat) (g st : nat) : Prop := nth_error gd g = Some st.
 Definition map_ok (gd : list nat) (m : list (nat * (nat * nat))) : Prop := forall n g st, In (n, (g, st)) m -> gd_ok gd g st.
-Definition item_ok (gd : list nat) (it : item) : Prop := match it with IParse g st => gd_ok gd g st | _ => True end.
+Definition item_ok (gd : list nat) (it : item) : Prop :=
+  match it with IParse g st | IBind g st _ | IDesc g st _ => gd_ok gd g st | _ => True end.
 Definition tab_ok (gd : list nat) (t : list (nat * nat)) : Prop := forall g st, In (g, st) t -> gd_ok gd g st.
 Definition pool_ok (K : cfg) (gd : list nat) (pl : list (nat * (nat * nat))) : Prop :=
   forall h g st, In (h, (g, st)) pl -> gd_ok gd g st /\ h = hash K st.
@@ -132,16 +133,16 @@ Proof.
   pose proof (brun_tab_ok K gd (ms ++ [BSync]) (mkB (btab sv) None false) Ht) as H.
   assert (Hf : Forall (msg_ok gd) (ms ++ [BSync])) by (apply Forall_app; split; auto; repeat constructor).
   specialize (H Hf). destruct (brun K (mkB (btab sv) None false) (ms ++ [BSync])) as [b rs].
-  destruct (recv (lru sv) (queue sv) rs) as [l q]. exact H.
+  destruct (recv K (lru sv) (queue sv) rs) as [l q]. exact H.
 Qed.
 
 Lemma register_tab_ok K gd sv g st snd_ : tab_ok gd (btab sv) -> gd_ok gd g st -> tab_ok gd (btab (fst (register K sv g st snd_))).
 Proof.
   intros Ht Hg. unfold register. destruct (mem g (lru sv)); cbn; auto.
   destruct (push (cs K) (lru sv) g) as [l ev].
-  set (ms := (if snd_ then [BParse g st] else []) ++ match ev with Some e => [BClose e] | None => [] end).
+  set (ms := match ev with Some e => [BClose e] | None => [] end ++ (if snd_ then [BParse g st] else [])).
   assert (Hm : Forall (msg_ok gd) ms).
-  { subst ms. apply Forall_app. split; [destruct snd_; repeat constructor; exact Hg | destruct ev; repeat constructor]. }
+  { subst ms. apply Forall_app. split; [destruct ev; repeat constructor | destruct snd_; repeat constructor; exact Hg]. }
   destruct ms as [|m0 ms0] eqn:E; cbn; auto.
   apply (exchange_tab_ok K gd (mkServer l (queue sv ++ [g]) (btab sv) (slog sv)) (m0 :: ms0)); auto.
 Qed.
@@ -163,43 +164,41 @@ Qed.
 Lemma map_ok_aremove gd n m : map_ok gd m -> map_ok gd (aremove n m).
 Proof. intros H n' g st Hi. apply aremove_In in Hi. eauto. Qed.
 
-Lemma ensure_ok K gd a n a' : acc_ok K gd a -> ensure K a n = Some a' -> acc_ok K gd a' /\ a_fwd a' = a_fwd a /\ a_syn a' = a_syn a.
+Lemma ensure_ok K gd a n g st : acc_ok K gd a -> gd_ok gd g st ->
+  acc_ok K gd (ensure K a n g st) /\ a_fwd (ensure K a n g st) = a_fwd a /\ a_syn (ensure K a n g st) = a_syn a.
 Proof.
-  intros (Hm & Ht & Hp) He. unfold ensure in He.
-  destruct (alookup n (a_map a)) as [[g st]|] eqn:E; [|discriminate].
-  pose proof (register_tab_ok K gd (a_sv a) g st true Ht (Hm _ _ _ (alookup_In _ _ _ E))) as Hr.
-  destruct (register K (a_sv a) g st true) as [sv ok]. inversion He; subst. cbn in *.
-  split; [split; [|split] | split; reflexivity].
-  - destruct ok; auto. apply map_ok_aremove. exact Hm.
+  intros (Hm & Ht & Hp) Hg. unfold ensure.
+  pose proof (register_tab_ok K gd (a_sv a) g st true Ht Hg) as Hr.
+  destruct (register K (a_sv a) g st true) as [sv ok]. cbn in *.
+  split; [split; [|split] | split; reflexivity]; cbn.
+  - destruct ok; auto. destruct (alookup n (a_map a)) as [[g' st']|]; auto. destruct (g' =? g); auto. apply map_ok_aremove. exact Hm.
   - exact Hr.
   - apply ppromote_ok. exact Hp.
 Qed.
 
-Lemma sitem_ok K gd a it a' : acc_ok K gd a -> item_ok gd it -> Forall (msg_ok gd) (a_fwd a) -> sitem K a it = Some a' ->
-  acc_ok K gd a' /\ Forall (msg_ok gd) (a_fwd a').
+Lemma sitem_ok K gd a it : acc_ok K gd a -> item_ok gd it -> Forall (msg_ok gd) (a_fwd a) ->
+  acc_ok K gd (sitem K a it) /\ Forall (msg_ok gd) (a_fwd (sitem K a it)).
 Proof.
-  intros Ha Hi Hf Hs. destruct it as [g st|g n|g n| |n]; cbn in Hs.
+  intros Ha Hi Hf. destruct it as [g st|g st n|g st n| |n]; cbn [sitem].
   - destruct (mem g (lru (a_sv a))).
-    + inversion Hs; subst. cbn. destruct Ha as (? & ? & ?). split; [split; [|split]|]; cbn; auto.
+    + cbn. destruct Ha as (? & ? & ?). split; [split; [|split]|]; cbn; auto.
     + destruct Ha as (Hm & Ht & Hp). pose proof (register_tab_ok K gd (a_sv a) g st false Ht Hi) as Hr.
-      destruct (register K (a_sv a) g st false) as [sv ok]. inversion Hs; subst. cbn in *.
+      destruct (register K (a_sv a) g st false) as [sv ok]. cbn in *.
       split; [split; [|split]|]; cbn; auto; [apply ppromote_ok; auto | apply Forall_app; split; auto; repeat constructor; exact Hi].
-  - destruct (ensure K a n) as [a1|] eqn:E; [|discriminate]. destruct (ensure_ok K gd a n a1 Ha E) as ((? & ? & ?) & Hfw & ?).
-    inversion Hs; subst. cbn. split; [split; [|split]|]; cbn; auto. rewrite Hfw. apply Forall_app. split; auto; repeat constructor.
-  - destruct (ensure K a n) as [a1|] eqn:E; [|discriminate]. destruct (ensure_ok K gd a n a1 Ha E) as ((? & ? & ?) & Hfw & ?).
-    inversion Hs; subst. cbn. split; [split; [|split]|]; cbn; auto. rewrite Hfw. apply Forall_app. split; auto; repeat constructor.
-  - inversion Hs; subst. cbn. destruct Ha as (? & ? & ?). split; [split; [|split]|]; cbn; auto. apply Forall_app. split; auto; repeat constructor.
-  - destruct Ha as (? & ? & ?). destruct (n =? 0); inversion Hs; subst; cbn; (split; [split; [|split]|]); cbn; auto.
-    + apply Forall_app. split; auto; repeat constructor.
-    + apply map_ok_aremove. auto.
+  - destruct (ensure_ok K gd a n g st Ha Hi) as ((? & ? & ?) & Hfw & ?).
+    cbn. split; [split; [|split]|]; cbn; auto. rewrite Hfw. apply Forall_app. split; auto; repeat constructor.
+  - destruct (ensure_ok K gd a n g st Ha Hi) as ((? & ? & ?) & Hfw & ?).
+    cbn. split; [split; [|split]|]; cbn; auto. rewrite Hfw. apply Forall_app. split; auto; repeat constructor.
+  - cbn. destruct Ha as (? & ? & ?). split; [split; [|split]|]; cbn; auto. apply Forall_app. split; auto; repeat constructor.
+  - destruct Ha as (? & ? & ?). destruct (n =? 0); cbn; (split; [split; [|split]|]); cbn; auto.
+    apply Forall_app. split; auto; repeat constructor.
 Qed.
 
 Lemma sitems_ok K gd its : forall a, acc_ok K gd a -> Forall (item_ok gd) its -> Forall (msg_ok gd) (a_fwd a) ->
-  acc_ok K gd (fst (sitems K a its)) /\ Forall (msg_ok gd) (a_fwd (fst (sitems K a its))).
+  acc_ok K gd (sitems K a its) /\ Forall (msg_ok gd) (a_fwd (sitems K a its)).
 Proof.
-  induction its as [|it r IH]; intros a Ha Hi Hf; cbn; auto.
-  inversion Hi; subst. destruct (sitem K a it) as [a1|] eqn:E; cbn; auto.
-  destruct (sitem_ok K gd a it a1 Ha H1 Hf E) as [Ha1 Hf1]. apply IH; auto.
+  unfold sitems. induction its as [|it r IH]; intros a Ha Hi Hf; cbn; auto.
+  inversion Hi; subst. destruct (sitem_ok K gd a it Ha H1 Hf) as [Ha1 Hf1]. apply IH; auto.
 Qed.
 
 Lemma pool_get_or_insert_ok K w st w' g st' : WInv K w -> pool_get_or_insert K w st = (w', (g, st')) ->
@@ -267,32 +266,31 @@ Proof.
     + cbn. apply Forall_app. split; [eapply items_ok_mono; eauto; apply Hc | repeat constructor; exact Hg].
   - (* Bind *)
     destruct (alive (clients w c)); cbn; auto.
-    destruct (alookup n (cmap (clients w c))) as [[g st]|]; cbn; apply winv_client; cbn; auto; try apply Hc; try constructor.
-    apply Forall_app. split; [apply Hc | repeat constructor].
+    destruct (alookup n (cmap (clients w c))) as [[g st]|] eqn:El; cbn; apply winv_client; cbn; auto; try apply Hc; try constructor.
+    apply Forall_app. split; [apply Hc | repeat constructor]. cbn. eapply (proj1 (Hc c)). apply alookup_In. exact El.
   - destruct (alive (clients w c)); cbn; auto.
-    destruct (alookup n (cmap (clients w c))) as [[g st]|]; cbn; apply winv_client; cbn; auto; try apply Hc; try constructor.
-    apply Forall_app. split; [apply Hc | repeat constructor].
+    destruct (alookup n (cmap (clients w c))) as [[g st]|] eqn:El; cbn; apply winv_client; cbn; auto; try apply Hc; try constructor.
+    apply Forall_app. split; [apply Hc | repeat constructor]. cbn. eapply (proj1 (Hc c)). apply alookup_In. exact El.
   - destruct (alive (clients w c)); cbn; auto. apply winv_client; cbn; auto; try apply Hc.
     apply Forall_app. split; [apply Hc | repeat constructor].
-  - destruct (alive (clients w c)); cbn; auto. apply winv_client; cbn; auto; try apply Hc.
-    apply Forall_app. split; [apply Hc | repeat constructor].
+  - destruct (alive (clients w c)); cbn; auto. apply winv_client; cbn; auto.
+    + destruct (n =? 0); [apply Hc | apply map_ok_aremove; apply Hc].
+    + apply Forall_app. split; [apply Hc | repeat constructor].
   - (* Sync *)
     destruct (alive (clients w c)); cbn; auto.
     assert (Ha0 : acc_ok K (gdef w) (mkAcc (cmap (clients w c)) (servers w s) (plru w) [] [])) by (unfold acc_ok; cbn; csplits; auto; apply Hc).
     pose proof (sitems_ok K (gdef w) (cbuf (clients w c)) _ Ha0 (proj2 (Hc c)) (Forall_nil _)) as [Ha Hf].
-    destruct (sitems K (mkAcc (cmap (clients w c)) (servers w s) (plru w) [] []) (cbuf (clients w c))) as [a ok]. cbn in Ha, Hf.
+    set (a := sitems K (mkAcc (cmap (clients w c)) (servers w s) (plru w) [] []) (cbuf (clients w c))) in *.
     destruct Ha as (Hm & Ht & Hpl).
     assert (Hgen : forall sv al, tab_ok (gdef w) (btab sv) ->
               WInv K (mkWorld (upd (clients w) c (mkClient (a_map a) [] al)) (upd (servers w) s sv) (a_pl a) (gdef w))).
     { intros sv al Hsv. unfold WInv. cbn. csplits; auto.
       - intros c0. unfold upd. destruct (c0 =? c); cbn; auto; split; try exact Hm; try constructor.
       - intros s0. unfold upd. destruct (s0 =? s); auto. }
-    destruct ok.
-    + destruct (a_fwd a) as [|m0 f0] eqn:Ef.
-      * cbn. apply Hgen. exact Ht.
-      * pose proof (exchange_tab_ok K (gdef w) (a_sv a) (m0 :: f0) Ht Hf) as Hx.
-        destruct (exchange K (a_sv a) (m0 :: f0)) as [sv rs]. cbn. apply Hgen. exact Hx.
+    destruct (a_fwd a) as [|m0 f0] eqn:Ef.
     + cbn. apply Hgen. exact Ht.
+    + pose proof (exchange_tab_ok K (gdef w) (a_sv a) (m0 :: f0) Ht Hf) as Hx.
+      destruct (exchange K (a_sv a) (m0 :: f0)) as [sv rs]. cbn. apply Hgen. exact Hx.
   - (* Cleanup *)
     unfold WInv. cbn. csplits; auto. intros s0. unfold upd. destruct (s0 =? s); cbn; auto. intros ? ? [].
 Qed.
@@ -516,56 +514,68 @@ Lemma brun_good K gd ms : forall t p,
   (forall st, p = Some st -> kind K st = Good) ->
   exists t', brun K (mkB t p false) ms = (mkB t' (fportal gd p ms) false, fexp gd p ms) /\
              tab_ok gd t' /\ tab_good K t' /\
-             (forall g, alookup g t' <> None <-> (alookup g t <> None \/ In g (pnames ms))).
+             (forall g, alookup g t' <> None <-> (alookup g t <> None \/ In g (pnames ms))) /\
+             (forall st, In (RRow st) (fexp gd p ms) -> kind K st = Good).
 Proof.
   induction ms as [|m r IH]; intros t p Ht Hg Hf He Hp; cbn [brun fexp fportal].
-  - exists t. repeat split; auto; cbn; tauto.
+  - exists t. split; [reflexivity|]. split; [exact Ht|]. split; [exact Hg|]. split; [cbn; tauto | intros st []].
   - destruct m; cbn in Hf; try contradiction.
     + (* BParse *)
       destruct Hf as (Hn & Hk & Hgd & Hf). cbn [bstep b_skip b_tab b_portal]. rewrite Hk.
       destruct (alookup g t) eqn:El; [exfalso; apply Hn; congruence|].
-      destruct (IH ((g, st) :: t) p) as (t' & Hr & Ht' & Hg' & Hd); auto.
+      destruct (IH ((g, st) :: t) p) as (t' & Hr & Ht' & Hg' & Hd & Hrows); auto.
       * intros g' st' [H|H]; [inversion H; subst; exact Hgd | auto].
       * intros g' st' [H|H]; [inversion H; subst; exact Hk | eauto].
       * eapply fwd_good_ext; [|exact Hf]. intros x _. cbn. destruct (x =? g) eqn:E.
         -- apply Nat.eqb_eq in E. subst. split; [discriminate | auto].
         -- apply Nat.eqb_neq in E. split; [intros [H|H]; [contradiction | exact H] | auto].
-      * exists t'. rewrite Hr. repeat split; auto.
-        -- intros H. apply Hd in H. cbn in H. destruct (g0 =? g) eqn:E; [apply Nat.eqb_eq in E; subst; right; left; reflexivity|].
-           destruct H as [H|H]; [left; exact H | right; right; exact H].
-        -- intros H. apply Hd. cbn. destruct (g0 =? g) eqn:E; [left; discriminate|]. apply Nat.eqb_neq in E.
-           destruct H as [H|[H|H]]; [left; exact H | congruence | right; exact H].
+      * exists t'. rewrite Hr. split; [reflexivity|]. split; [exact Ht'|]. split; [exact Hg'|]. split.
+        -- intros g0. split.
+           ++ intros H. apply Hd in H. cbn in H. destruct (g0 =? g) eqn:E; [apply Nat.eqb_eq in E; subst; right; left; reflexivity|].
+              destruct H as [H|H]; [left; exact H | right; right; exact H].
+           ++ intros H. apply Hd. cbn. destruct (g0 =? g) eqn:E; [left; discriminate|]. apply Nat.eqb_neq in E.
+              destruct H as [H|[H|H]]; [left; exact H | congruence | right; exact H].
+        -- intros st0 [X|X]; [discriminate | auto].
     + (* BBind *)
       destruct Hf as [Hdg Hf]. cbn [bstep b_skip b_tab b_portal].
       destruct (alookup g t) as [st|] eqn:El; [|contradiction].
       assert (Hst : nth g gd 0 = st). { apply nth_of_gd. apply Ht. apply alookup_In. exact El. }
       rewrite Hst. cbn in He.
-      destruct (IH t (Some st)) as (t' & Hr & Ht' & Hg' & Hd); auto.
+      destruct (IH t (Some st)) as (t' & Hr & Ht' & Hg' & Hd & Hrows); auto.
       * intros st0 H0. inversion H0; subst. eapply Hg. apply alookup_In. exact El.
-      * exists t'. rewrite Hr. repeat split; auto; apply Hd.
+      * exists t'. rewrite Hr. split; [reflexivity|]. split; [exact Ht'|]. split; [exact Hg'|]. split; [exact Hd|].
+        intros st0 [X|X]; [discriminate | auto].
     + (* BDesc *)
       destruct Hf as [Hdg Hf]. cbn [bstep b_skip b_tab b_portal].
       destruct (alookup g t) as [st|] eqn:El; [|contradiction].
       assert (Hst : nth g gd 0 = st). { apply nth_of_gd. apply Ht. apply alookup_In. exact El. }
       rewrite Hst. cbn in He.
-      destruct (IH t p) as (t' & Hr & Ht' & Hg' & Hd); auto.
-      exists t'. destruct p; rewrite Hr; repeat split; auto; apply Hd.
+      destruct (IH t p) as (t' & Hr & Ht' & Hg' & Hd & Hrows); auto.
+      exists t'. destruct p; rewrite Hr; (split; [reflexivity|]; split; [exact Ht'|]; split; [exact Hg'|]; split; [exact Hd|]);
+        intros st0 [X|X]; try discriminate; auto.
     + (* BExec *)
       cbn in He. destruct He as [Hpt He]. cbn [bstep b_skip b_tab b_portal].
       destruct p as [st|]; [|discriminate]. rewrite (Hp st eq_refl).
-      destruct (IH t (Some st)) as (t' & Hr & Ht' & Hg' & Hd); auto.
-      exists t'. rewrite Hr. repeat split; auto; apply Hd.
+      destruct (IH t (Some st)) as (t' & Hr & Ht' & Hg' & Hd & Hrows); auto.
+      exists t'. rewrite Hr. split; [reflexivity|]. split; [exact Ht'|]. split; [exact Hg'|]. split; [exact Hd|].
+      intros st0 [X|X]; [inversion X; subst; apply Hp; reflexivity | auto].
     + (* BCloseUnnamed *)
       cbn in He. cbn [bstep b_skip b_tab b_portal].
-      destruct (IH t p) as (t' & Hr & Ht' & Hg' & Hd); auto.
-      exists t'. destruct p; rewrite Hr; repeat split; auto; apply Hd.
+      destruct (IH t p) as (t' & Hr & Ht' & Hg' & Hd & Hrows); auto.
+      exists t'. destruct p; rewrite Hr; (split; [reflexivity|]; split; [exact Ht'|]; split; [exact Hg'|]; split; [exact Hd|]);
+        intros st0 [X|X]; try discriminate; auto.
 Qed.
 
-Lemma recv_noerr l q rs : ~ In RErr rs -> fst (recv l q rs) = l.
+Definition quiet (K : cfg) (rs : list reply) : Prop :=
+  ~ In RErr rs /\ (forall st, In (RRow st) rs -> kind K st = Good).
+
+Lemma recv_noerr K l q rs : quiet K rs -> fst (recv K l q rs) = l.
 Proof.
-  revert l q. induction rs as [|r rs IH]; intros l q H; cbn; auto.
-  destruct r; try (apply IH; intros X; apply H; right; exact X).
-  exfalso. apply H. left. reflexivity.
+  revert l q. induction rs as [|r rs IH]; intros l q [H1 H2]; cbn; auto.
+  assert (Hq : quiet K rs) by (split; [intros X; apply H1; right; exact X | intros st X; apply H2; right; exact X]).
+  destruct r; try (apply IH; exact Hq).
+  - rewrite (H2 st (or_introl eq_refl)). apply IH. exact Hq.
+  - exfalso. apply H1. left. reflexivity.
 Qed.
 
 Lemma fexp_noerr gd ms : forall p, fexec_ok (match p with Some _ => true | None => false end) ms -> ~ In RErr (fexp gd p ms).
@@ -588,26 +598,27 @@ Definition cmapT := list (nat * (nat * nat)).
 Definition mapx (M : cmapT) (n : nat) : option nat := option_map snd (alookup n M).
 
 (* what the buffered items say about the buffered ops, from the front; [M] = the client map when
-   the first op was buffered, [Mf] = the client map now *)
+   the first op was buffered, [Mf] = the client map now.  Since the repairs the map follows the
+   messages in order: Parse inserts, Close removes, Bind/Describe are resolved on arrival. *)
 Fixpoint brel (gd : list nat) (M : cmapT) (os : list op) (its : list item) (Mf : cmapT) : Prop :=
   match os, its with
   | [], [] => Mf = M
   | Parse _ n st :: os', IParse g st' :: its' => st' = st /\ nth_error gd g = Some st /\ brel gd (ainsert n (g, st) M) os' its' Mf
-  | Bind _ n :: os', IBind g n' :: its' => n' = n /\ (exists st, alookup n M = Some (g, st)) /\ brel gd M os' its' Mf
-  | Describe _ n :: os', IDesc g n' :: its' => n' = n /\ (exists st, alookup n M = Some (g, st)) /\ brel gd M os' its' Mf
+  | Bind _ n :: os', IBind g st n' :: its' => n' = n /\ alookup n M = Some (g, st) /\ nth_error gd g = Some st /\ brel gd M os' its' Mf
+  | Describe _ n :: os', IDesc g st n' :: its' => n' = n /\ alookup n M = Some (g, st) /\ nth_error gd g = Some st /\ brel gd M os' its' Mf
   | Execute _ :: os', IExec :: its' => brel gd M os' its' Mf
-  | Close _ n :: os', IClose n' :: its' => n' = n /\ brel gd M os' its' Mf
+  | Close _ n :: os', IClose n' :: its' => n' = n /\ brel gd (if n =? 0 then M else aremove n M) os' its' Mf
   | _, _ => False
   end.
 
 Lemma brel_mono gd gd' : (forall g st, nth_error gd g = Some st -> nth_error gd' g = Some st) ->
   forall os M its Mf, brel gd M os its Mf -> brel gd' M os its Mf.
 Proof.
-  intros Hm. induction os as [|o os IH]; intros M its Mf H; destruct its as [|it its]; cbn in *; auto; try (destruct o; contradiction).
+  intros Hm. induction os as [|o os IH]; intros M its Mf H; destruct its as [|it its]; cbn in *; auto; try contradiction; try (destruct o; contradiction).
   destruct o; destruct it; cbn in *; try contradiction.
   - destruct H as (A & B & C). repeat split; auto.
-  - destruct H as (A & B & C). repeat split; auto.
-  - destruct H as (A & B & C). repeat split; auto.
+  - destruct H as (A & B & C & D). repeat split; auto.
+  - destruct H as (A & B & C & D). repeat split; auto.
   - auto.
   - destruct H as (A & B). split; auto.
 Qed.
@@ -616,10 +627,10 @@ Qed.
 Definition snoc_ok (gd : list nat) (Mf : cmapT) (o : op) (it : item) (Mf' : cmapT) : Prop :=
   match o, it with
   | Parse _ n st, IParse g st' => st' = st /\ nth_error gd g = Some st /\ Mf' = ainsert n (g, st) Mf
-  | Bind _ n, IBind g n' => n' = n /\ (exists st, alookup n Mf = Some (g, st)) /\ Mf' = Mf
-  | Describe _ n, IDesc g n' => n' = n /\ (exists st, alookup n Mf = Some (g, st)) /\ Mf' = Mf
+  | Bind _ n, IBind g st n' => n' = n /\ alookup n Mf = Some (g, st) /\ nth_error gd g = Some st /\ Mf' = Mf
+  | Describe _ n, IDesc g st n' => n' = n /\ alookup n Mf = Some (g, st) /\ nth_error gd g = Some st /\ Mf' = Mf
   | Execute _, IExec => Mf' = Mf
-  | Close _ n, IClose n' => n' = n /\ Mf' = Mf
+  | Close _ n, IClose n' => n' = n /\ Mf' = (if n =? 0 then Mf else aremove n Mf)
   | _, _ => False
   end.
 
@@ -628,110 +639,73 @@ Proof.
   induction os as [|o0 os IH]; intros M its Mf H Hs; destruct its as [|it0 its]; cbn in H; try contradiction; try (destruct o0; contradiction).
   - subst. destruct o; destruct it; cbn in *; try contradiction.
     + destruct Hs as (A & B & C). subst. auto.
-    + destruct Hs as (A & B & C). subst. auto.
-    + destruct Hs as (A & B & C). subst. auto.
+    + destruct Hs as (A & B & C & D). subst. auto.
+    + destruct Hs as (A & B & C & D). subst. auto.
     + subst. auto.
     + destruct Hs as (A & B). subst. auto.
   - destruct o0; destruct it0; cbn in H; try contradiction; cbn.
     + destruct H as (A & B & C). repeat split; auto. eapply IH; eauto.
-    + destruct H as (A & B & C). repeat split; auto. eapply IH; eauto.
-    + destruct H as (A & B & C). repeat split; auto. eapply IH; eauto.
+    + destruct H as (A & B & C & D). repeat split; auto. eapply IH; eauto.
+    + destruct H as (A & B & C & D). repeat split; auto. eapply IH; eauto.
     + eapply IH; eauto.
     + destruct H as (A & B). split; auto. eapply IH; eauto.
 Qed.
 
-Lemma brel_length gd : forall os M its Mf, brel gd M os its Mf -> length os = length its.
-Proof.
-  induction os as [|o os IH]; intros M its Mf H; destruct its as [|it its]; cbn in *; auto; try contradiction; try (destruct o; contradiction).
-  destruct o; destruct it; cbn in H; try contradiction; f_equal.
-  - destruct H as (_ & _ & C). eapply IH; eauto.
-  - destruct H as (_ & _ & C). eapply IH; eauto.
-  - destruct H as (_ & _ & C). eapply IH; eauto.
-  - eapply IH; eauto.
-  - destruct H as (_ & C). eapply IH; eauto.
-Qed.
-
-(* names mentioned so far are never redefined by the rest of a guarded batch *)
-Lemma brel_ment_stable K gd : forall os M its Mf tab ment pf b,
-  brel gd M os its Mf -> batch_ok K tab ment pf b os = true ->
-  forall n, In n ment -> alookup n Mf = alookup n M.
-Proof.
-  induction os as [|o os IH]; intros M its Mf tab ment pf b H Hb n Hn; destruct its as [|it its]; cbn in H; try contradiction; try (destruct o; contradiction).
-  - subst. reflexivity.
-  - destruct o; destruct it; cbn in H; try contradiction; cbn in Hb.
-    + destruct H as (A & B & C). rewrite !andb_true_iff in Hb. destruct Hb as (((_ & Hm) & _) & Hb).
-      rewrite (IH _ _ _ _ _ _ _ C Hb n (or_intror Hn)).
-      apply alookup_ainsert_neq. intros ->. apply negb_true_iff in Hm. apply mem_false in Hm. contradiction.
-    + destruct H as (A & B & C). rewrite !andb_true_iff in Hb. destruct Hb as (_ & Hb).
-      apply (IH _ _ _ _ _ _ _ C Hb n (or_intror Hn)).
-    + destruct H as (A & B & C). rewrite !andb_true_iff in Hb. destruct Hb as (_ & Hb).
-      apply (IH _ _ _ _ _ _ _ C Hb n (or_intror Hn)).
-    + rewrite !andb_true_iff in Hb. destruct Hb as (_ & Hb). apply (IH _ _ _ _ _ _ _ H Hb n Hn).
-    + destruct H as (A & C). rewrite !andb_true_iff in Hb. destruct Hb as (_ & Hb).
-      apply (IH _ _ _ _ _ _ _ C Hb n (or_intror Hn)).
-Qed.
-
-(** the relation between the buffer-time map [M], the specification's table [tab] and the set of
-    names closed so far in the batch *)
-Definition NJ (M : cmapT) (tab : list (nat * nat)) (closed ment : list nat) : Prop :=
-  (forall n, ~ In n closed -> mapx M n = alookup n tab) /\
-  (forall n, In n closed -> alookup n tab = None) /\
-  (forall n, In n closed -> In n ment).
+(** the buffer-time map [M] and the specification's table [tab] agree name by name *)
+Definition NJ (M : cmapT) (tab : list (nat * nat)) : Prop := forall n, mapx M n = alookup n tab.
 
 Lemma mapx_ainsert_eq M n g st : mapx (ainsert n (g, st) M) n = Some st.
 Proof. unfold mapx. rewrite alookup_ainsert_eq. reflexivity. Qed.
 Lemma mapx_ainsert_neq M n n' g st : n' <> n -> mapx (ainsert n (g, st) M) n' = mapx M n'.
 Proof. intros H. unfold mapx. rewrite alookup_ainsert_neq by assumption. reflexivity. Qed.
 
-(* one spec step on a guarded batch keeps NJ (no errors, no skipping) *)
-Definition dportal_flag (d : dstate) : bool := match d_portal d with Some _ => true | None => false end.
+Lemma NJ_parse M tab n g st : NJ M tab -> NJ (ainsert n (g, st) M) (ainsert n st tab).
+Proof.
+  intros H n0. destruct (Nat.eq_dec n0 n) as [->|Hne].
+  - rewrite mapx_ainsert_eq, alookup_ainsert_eq. reflexivity.
+  - rewrite mapx_ainsert_neq, alookup_ainsert_neq by assumption. apply H.
+Qed.
+
+Lemma NJ_close M tab n : NJ M tab -> NJ (aremove n M) (aremove n tab).
+Proof.
+  intros H n0. unfold mapx. destruct (Nat.eq_dec n0 n) as [->|Hne].
+  - rewrite !alookup_aremove_eq. reflexivity.
+  - rewrite !alookup_aremove_neq by assumption. apply H.
+Qed.
 
 (* walking a prefix of a guarded batch *)
-Lemma walk K gd : forall os M its Mf tab ment closed pf b tail,
-  brel gd M os its Mf -> NJ M tab closed ment -> batch_ok K tab ment pf b (os ++ tail) = true ->
-  exists tab' ment' closed' pf' b', NJ Mf tab' closed' ment' /\ batch_ok K tab' ment' pf' b' tail = true.
+Lemma walk K gd : forall os M its Mf tab known pf b tail,
+  brel gd M os its Mf -> NJ M tab -> batch_ok K tab known pf b (os ++ tail) = true ->
+  exists tab' known' pf' b', NJ Mf tab' /\ batch_ok K tab' known' pf' b' tail = true.
 Proof.
-  induction os as [|o os IH]; intros M its Mf tab ment closed pf b tail H HJ Hb; destruct its as [|it its]; cbn in H; try contradiction; try (destruct o; contradiction).
+  induction os as [|o os IH]; intros M its Mf tab known pf b tail H HJ Hb; destruct its as [|it its]; cbn in H; try contradiction; try (destruct o; contradiction).
   - subst. cbn in Hb. eauto 10.
-  - destruct HJ as (J1 & J2 & J3).
-    destruct o; destruct it; cbn in H; try contradiction; cbn in Hb.
-    + destruct H as (A & B & C). subst. rewrite !andb_true_iff in Hb. destruct Hb as (((_ & Hm) & _) & Hb).
-      apply negb_true_iff in Hm. apply mem_false in Hm.
-      eapply IH with (closed := closed); [exact C | | exact Hb]. unfold NJ; csplits.
-      * intros n0 Hn0. destruct (Nat.eq_dec n0 n) as [->|Hne].
-        -- rewrite mapx_ainsert_eq, alookup_ainsert_eq. reflexivity.
-        -- rewrite mapx_ainsert_neq, alookup_ainsert_neq by assumption. auto.
-      * intros n0 Hn0. destruct (Nat.eq_dec n0 n) as [->|Hne]; [exfalso; apply Hm; auto|].
-        rewrite alookup_ainsert_neq by assumption. auto.
-      * intros n0 Hn0. right. auto.
-    + destruct H as (A & B & C). rewrite !andb_true_iff in Hb. destruct Hb as (_ & Hb).
-      eapply IH with (closed := closed); [exact C | | exact Hb]. unfold NJ; csplits; auto. intros x Hx. right. auto.
-    + destruct H as (A & B & C). rewrite !andb_true_iff in Hb. destruct Hb as (_ & Hb).
-      eapply IH with (closed := closed); [exact C | | exact Hb]. unfold NJ; csplits; auto. intros x Hx. right. auto.
-    + rewrite !andb_true_iff in Hb. destruct Hb as (_ & Hb). eapply IH with (closed := closed); [exact H | | exact Hb]. unfold NJ; csplits; auto.
-    + destruct H as (A & C). subst. rewrite !andb_true_iff in Hb. destruct Hb as (_ & Hb).
-      eapply IH with (closed := n :: closed); [exact C | | exact Hb]. unfold NJ; csplits.
-      * intros n0 Hn0. rewrite alookup_aremove_neq; [apply J1|]; intros X; apply Hn0; [right; exact X | left; auto].
-      * intros n0 [->|Hn0]; [apply alookup_aremove_eq|]. destruct (Nat.eq_dec n0 n) as [->|Hne]; [apply alookup_aremove_eq|].
-        rewrite alookup_aremove_neq by assumption. auto.
-      * intros n0 [->|Hn0]; [left; reflexivity | right; auto].
+  - destruct o; destruct it; cbn in H; try contradiction; cbn [app batch_ok] in Hb.
+    + destruct H as (A & B & C). subst. rewrite !andb_true_iff in Hb. destruct Hb as (_ & Hb).
+      eapply IH; [exact C | | exact Hb]. apply NJ_parse. exact HJ.
+    + destruct H as (A & B & C & D). rewrite !andb_true_iff in Hb. destruct Hb as (_ & Hb).
+      eapply IH; [exact D | exact HJ | exact Hb].
+    + destruct H as (A & B & C & D). rewrite !andb_true_iff in Hb. destruct Hb as (_ & Hb).
+      eapply IH; [exact D | exact HJ | exact Hb].
+    + rewrite !andb_true_iff in Hb. destruct Hb as (_ & Hb). eapply IH; [exact H | exact HJ | exact Hb].
+    + destruct H as (A & C). subst. rewrite !andb_true_iff in Hb. destruct Hb as (Hn0 & Hb).
+      apply negb_true_iff in Hn0. rewrite Hn0 in C.
+      eapply IH; [exact C | | exact Hb]. apply NJ_close. exact HJ.
 Qed.
 
 (* consequence used when a Bind/Describe is buffered: the name is in the client map *)
 Lemma buffered_lookup K gd os M0 its Mf tab b n (o : op) :
-  (o = Bind 0 n \/ o = Describe 0 n \/ exists c, o = Bind c n \/ o = Describe c n) ->
-  brel gd M0 os its Mf -> (forall x, mapx M0 x = alookup x tab) ->
+  (exists c, o = Bind c n \/ o = Describe c n) ->
+  brel gd M0 os its Mf -> NJ M0 tab ->
   batch_ok K tab [] false b (os ++ [o]) = true ->
   exists g st, alookup n Mf = Some (g, st).
 Proof.
   intros Ho H H0 Hb.
-  destruct (walk K gd os M0 its Mf tab [] [] false b [o] H) as (tab' & ment' & closed' & pf' & b' & (J1 & J2 & J3) & Hb'); auto.
-  { unfold NJ; csplits; auto; intros ? []. }
+  destruct (walk K gd os M0 its Mf tab [] false b [o] H H0 Hb) as (tab' & known' & pf' & b' & J & Hb').
   assert (Hl : alookup n tab' <> None).
-  { destruct Ho as [->|[->|[c [->| ->]]]]; cbn in Hb'; rewrite !andb_true_iff in Hb'; destruct Hb' as ((Hl & _) & _);
+  { destruct Ho as [c [->| ->]]; cbn in Hb'; rewrite !andb_true_iff in Hb'; destruct Hb' as ((Hl & _) & _);
       destruct (alookup n tab'); congruence. }
-  assert (Hnc : ~ In n closed') by (intros X; apply Hl; auto).
-  specialize (J1 n Hnc). unfold mapx in J1. destruct (alookup n Mf) as [[g st]|]; [eauto|]. cbn in J1. congruence.
+  specialize (J n). unfold mapx in J. destruct (alookup n Mf) as [[g st]|]; [eauto|]. cbn in J. congruence.
 Qed.
 
 
@@ -793,9 +767,9 @@ Proof.
   - cbn [length]. pose proof (remove_nat_length g tl). lia.
 Qed.
 
-Lemma recv_same l q rs : ~ In RErr rs -> exists q', recv l q rs = (l, q').
+Lemma recv_same K l q rs : quiet K rs -> exists q', recv K l q rs = (l, q').
 Proof.
-  intros H. pose proof (recv_noerr l q rs H) as E. destruct (recv l q rs) as [l' q']. cbn in E. subst. eauto.
+  intros H. pose proof (recv_noerr K l q rs H) as E. destruct (recv K l q rs) as [l' q']. cbn in E. subst. eauto.
 Qed.
 
 (* Server::register_prepared_statement on a statement that is fine: it ends up in the cache, at
@@ -834,16 +808,17 @@ Proof.
     { intros. cbn [lru]. rewrite Hl. apply touch_head. exact Hnd'. }
     assert (Hmem : mem g l = true) by (apply mem_In; rewrite Hl; left; reflexivity).
     destruct snd_, ev as [e|]; cbn [app].
-    + (* Parse + Close e, out of band *)
+    + (* Close e + Parse, out of band *)
       destruct Hev as (He1 & He2 & He3).
       assert (Heg : e <> g) by (intros ->; apply Em; apply in_app_iff; auto).
-      unfold exchange. cbn [btab lru queue slog app brun bstep b_skip b_tab b_portal]. rewrite Hk, Hgb. cbn [b_skip b_tab b_portal app recv].
+      assert (Hgb' : alookup g (aremove e (btab sv)) = None) by (rewrite alookup_aremove_neq by auto; exact Hgb).
+      unfold exchange. cbn [btab lru queue slog app brun bstep b_skip b_tab b_portal]. rewrite Hk, Hgb'. cbn [b_skip b_tab b_portal app recv].
       cbn [fst lru queue btab slog]. eexists _, (g :: tl), rest'. split; [cbn [lru queue btab slog]; rewrite Hmem; reflexivity|].
       split; [constructor; cbn [lru btab]|].
         -- rewrite Hl. apply touch_head. exact Hnd'.
         -- exact Hnd'.
         -- rewrite <- Hl. exact Hlen'.
-        -- intros x. cbn [aremove]. destruct (e =? g) eqn:E; [apply Nat.eqb_eq in E; congruence|].
+        -- intros x.
            destruct (Nat.eq_dec x g) as [->|Hxg].
            ++ cbn. rewrite Nat.eqb_refl. split; [left; discriminate | left; reflexivity].
            ++ rewrite alookup_cons_neq by assumption. destruct (Nat.eq_dec x e) as [->|Hxe].
@@ -853,18 +828,18 @@ Proof.
               ** rewrite alookup_aremove_neq by assumption. rewrite <- H4. cbn. rewrite !in_app_iff. split.
                  --- intros [X|[X|X]]; [congruence | auto | right; apply Hsub; exact X].
                  --- intros [X|X]; [auto|]. destruct (He3 x X) as [Y|Y]; [congruence | auto].
-        -- intros x Hx. cbn [aremove]. destruct (e =? g) eqn:E; [apply Nat.eqb_eq in E; congruence|].
+        -- intros x Hx.
            assert (x <> g) by (intros ->; contradiction). rewrite alookup_cons_neq by assumption.
            destruct (Nat.eq_dec x e) as [->|Hxe]; [apply alookup_aremove_eq | rewrite alookup_aremove_neq by assumption; auto].
         -- intros x Hx. right. auto.
-        -- intros g0 st0 Hi. cbn [aremove] in Hi. destruct (e =? g) eqn:E; [apply Nat.eqb_eq in E; congruence|].
+        -- intros g0 st0 Hi.
            destruct Hi as [Hi|Hi]; [inversion Hi; subst; exact Hgd | apply aremove_In in Hi; auto].
         -- split; [left; reflexivity|]. split; [intros x Hx; right; exact Hx|]. split; [cbn; lia|]. split.
-           ++ intros x Hx. cbn [btab aremove]. destruct (e =? g) eqn:E; [apply Nat.eqb_eq in E; congruence|].
+           ++ intros x Hx. cbn [btab].
               assert (x <> g) by (intros ->; apply Em; apply in_app_iff; auto).
               assert (x <> e) by (intros ->; exact (NoDup_app_disj tl rest e H2 Hx He1)).
               rewrite alookup_cons_neq, alookup_aremove_neq by assumption. reflexivity.
-           ++ split; [|intros X; destruct (Hvac X)]. intros _. left. cbn [btab aremove]. destruct (e =? g) eqn:E; [apply Nat.eqb_eq in E; congruence|].
+           ++ split; [|intros X; destruct (Hvac X)]. intros _. left. cbn [btab].
               cbn. rewrite Nat.eqb_refl. discriminate.
     + (* Parse only, out of band *)
       subst rest'.
@@ -979,17 +954,15 @@ Qed.
 
 (** ** the loop invariant *)
 Record LI (K : cfg) (gd : list nat) (Mf : cmapT) (a : sacc) (M : cmapT) (d : dstate) (os : list op) (its : list item)
-          (ment closed : list nat) (b : nat) (tl rest : list nat) (drs : list reply) : Prop := {
+          (known : list nat) (b : nat) (tl rest : list nat) (drs : list reply) : Prop := {
   li_brel : brel gd M os its Mf;
-  li_ok : batch_ok K (d_tab d) ment (oflag (d_portal d)) b os = true;
+  li_ok : batch_ok K (d_tab d) known (oflag (d_portal d)) b os = true;
   li_skip : d_skip d = false;
-  li_nj : NJ M (d_tab d) closed ment;
-  li_map1 : forall n, ~ In n closed -> alookup n (a_map a) = alookup n Mf;
-  li_map2 : forall n, In n closed -> alookup n (a_map a) = None;
-  li_mapok : map_ok gd (a_map a);
+  li_nj : NJ M (d_tab d);
+  li_map : a_map a = Mf;
   li_srv : SInv K gd (a_sv a) tl rest (pnames (a_fwd a));
   li_budget : length tl + b <= cs K;
-  li_touch : forall n, In n ment -> ~ In n closed -> exists g st, alookup n M = Some (g, st) /\ In g tl;
+  li_touch : forall n, In n known -> exists g st, alookup n M = Some (g, st) /\ In g tl;
   li_refs : forall g, In g (refs (a_fwd a)) -> In g tl;
   li_fwd : fwd_good K gd (fun g => alookup g (btab (a_sv a)) <> None) (a_fwd a);
   li_exec : fexec_ok false (a_fwd a);
@@ -1004,40 +977,32 @@ Variable Mf : cmapT.
 Hypothesis Hcs : 0 < cs K.
 Hypothesis Hgood : gd_good K univ gd.
 
-Lemma andb4 a b c d : a && b && c && d = true -> a = true /\ b = true /\ c = true /\ d = true.
+Lemma andb3 a b c : a && b && c = true -> a = true /\ b = true /\ c = true.
 Proof. rewrite !andb_true_iff. tauto. Qed.
 
 (* Parse *)
-Lemma li_step_parse a M d c n st os g st' its ment closed b tl rest drs :
-  LI K gd Mf a M d (Parse c n st :: os) (IParse g st' :: its) ment closed b tl rest drs ->
-  exists a1 tl1 rest1, sitem K a (IParse g st') = Some a1 /\
-    LI K gd Mf a1 (ainsert n (g, st) M) (fst (dstep K d (Parse c n st))) os its (n :: ment) closed (b - 1) tl1 rest1
+Lemma li_step_parse a M d c n st os g st' its known b tl rest drs :
+  LI K gd Mf a M d (Parse c n st :: os) (IParse g st' :: its) known b tl rest drs ->
+  exists tl1 rest1,
+    LI K gd Mf (sitem K a (IParse g st')) (ainsert n (g, st) M) (fst (dstep K d (Parse c n st))) os its (n :: known) (b - 1) tl1 rest1
        (drs ++ snd (dstep K d (Parse c n st))).
 Proof.
-  intros [Hbrel Hok Hskip Hnj Hm1 Hm2 Hmok Hsrv Hbud Htouch Hrefs Hfwd Hexec Hport Hpg Hnorm].
-  cbn in Hbrel. destruct Hbrel as (-> & Hgd & Hbrel). cbn in Hok.
-  apply andb4 in Hok as (Hk & Hment & Hb & Hok).
-  destruct (kind K st) eqn:Ek; try discriminate. apply negb_true_iff in Hment. apply mem_false in Hment. assert (Hb' : 0 < b) by (destruct b; [discriminate | lia]); clear Hb; rename Hb' into Hb.
+  intros [Hbrel Hok Hskip Hnj Hmap Hsrv Hbud Htouch Hrefs Hfwd Hexec Hport Hpg Hnorm].
+  cbn in Hbrel. destruct Hbrel as (-> & Hgd & Hbrel). cbn [batch_ok] in Hok.
+  apply andb3 in Hok as (Hk & Hb & Hok).
+  destruct (kind K st) eqn:Ek; try discriminate.
+  assert (Hb' : 0 < b) by (destruct b; [discriminate | lia]); clear Hb; rename Hb' into Hb.
   unfold dstep. rewrite Hskip, Ek. cbn [fst snd].
-  destruct Hnj as (J1 & J2 & J3).
-  assert (Hnj' : NJ (ainsert n (g, st) M) (ainsert n st (d_tab d)) closed (n :: ment)).
-  { unfold NJ. csplits.
-    - intros n0 Hn0. destruct (Nat.eq_dec n0 n) as [->|Hne].
-      + rewrite mapx_ainsert_eq, alookup_ainsert_eq. reflexivity.
-      + rewrite mapx_ainsert_neq, alookup_ainsert_neq by assumption. auto.
-    - intros n0 Hn0. destruct (Nat.eq_dec n0 n) as [->|Hne]; [exfalso; apply Hment; auto|].
-      rewrite alookup_ainsert_neq by assumption. auto.
-    - intros n0 Hn0. right. auto. }
+  pose proof (NJ_parse M (d_tab d) n g st Hnj) as Hnj'.
   cbn [sitem]. destruct (mem g (lru (a_sv a))) eqn:Em.
   - (* cached on this server: ParseComplete is synthesised *)
     apply mem_In in Em. rewrite (si_lru _ _ _ _ _ _ Hsrv) in Em.
     destruct (touch_good K gd (a_sv a) tl rest (pnames (a_fwd a)) g Hsrv Em) as (HS' & Hsub & Hl).
-    eexists _, (g :: remove_nat g tl), (remove_nat g rest). split; [reflexivity|].
-    assert (Htouch' : forall n0, In n0 (n :: ment) -> ~ In n0 closed -> exists g0 st0, alookup n0 (ainsert n (g, st) M) = Some (g0, st0) /\ In g0 (g :: remove_nat g tl)).
-    { intros n0 [<-|Hn0] Hc0.
-      - exists g, st. rewrite alookup_ainsert_eq. split; [reflexivity | left; reflexivity].
-      - assert (n0 <> n) by (intros ->; contradiction). rewrite alookup_ainsert_neq by assumption.
-        destruct (Htouch n0 Hn0 Hc0) as (g0 & st0 & A & B). exists g0, st0. split; auto. }
+    exists (g :: remove_nat g tl), (remove_nat g rest).
+    assert (Htouch' : forall n0, In n0 (n :: known) -> exists g0 st0, alookup n0 (ainsert n (g, st) M) = Some (g0, st0) /\ In g0 (g :: remove_nat g tl)).
+    { intros n0 Hn0. destruct (Nat.eq_dec n0 n) as [->|Hne]; [exists g, st; rewrite alookup_ainsert_eq; split; [reflexivity | left; reflexivity]|].
+      destruct Hn0 as [X|Hn0]; [congruence|].
+      rewrite alookup_ainsert_neq by assumption. destruct (Htouch n0 Hn0) as (g0 & st0 & A & B). exists g0, st0. split; auto. }
     constructor; cbn [a_map a_sv a_pl a_fwd a_syn d_tab d_portal d_skip btab]; auto;
       try exact HS'; try (cbn [length] in Hl |- *; lia); try (intros x Hx; apply Hsub; auto; fail).
     + rewrite <- app_assoc. cbn [app]. rewrite norm_move by reflexivity. apply norm_snoc_congr. exact Hnorm.
@@ -1045,14 +1010,14 @@ Proof.
     apply mem_false in Em. rewrite (si_lru _ _ _ _ _ _ Hsrv) in Em.
     destruct (register_good K gd univ (a_sv a) tl rest (pnames (a_fwd a)) g st false Hcs Hgood Hsrv ltac:(right; lia) Hgd (fun _ => Em))
       as (sv' & tl' & rest' & Hreg & HS' & Hgtl & Hsub & Hl & Hframe & _).
-    rewrite Hreg. eexists _, tl', rest'. split; [reflexivity|].
+    rewrite Hreg. exists tl', rest'.
     constructor; cbn [a_map a_sv a_pl a_fwd a_syn d_tab d_portal d_skip]; auto.
     + rewrite pnames_app. cbn. exact HS'.
     + lia.
-    + intros n0 [<-|Hn0] Hc0.
+    + intros n0 [<-|Hn0].
       * exists g, st. rewrite alookup_ainsert_eq. split; [reflexivity | exact Hgtl].
-      * assert (n0 <> n) by (intros ->; contradiction). rewrite alookup_ainsert_neq by assumption.
-        destruct (Htouch n0 Hn0 Hc0) as (g0 & st0 & A & B). exists g0, st0. split; auto.
+      * destruct (Nat.eq_dec n0 n) as [->|Hne]; [exists g, st; rewrite alookup_ainsert_eq; split; [reflexivity | exact Hgtl]|].
+        rewrite alookup_ainsert_neq by assumption. destruct (Htouch n0 Hn0) as (g0 & st0 & A & B). exists g0, st0. split; auto.
     + intros x Hx. rewrite refs_app in Hx. apply in_app_iff in Hx as [Hx|[<-|[]]]; auto.
     + apply fwd_good_snoc.
       * eapply fwd_good_ext; [|exact Hfwd]. intros x Hx. cbn. rewrite Hframe; [tauto | auto].
@@ -1065,72 +1030,55 @@ Proof.
 Qed.
 
 (* Bind and Describe share everything up to the message appended *)
-Lemma li_ensure a M d n os its ment closed b tl rest drs g st0 tab' :
-  LI K gd Mf a M d os its ment closed b tl rest drs ->
-  alookup n M = Some (g, st0) -> alookup n (d_tab d) <> None -> (In g tl \/ 0 < b) ->
-  (forall x, In x (n :: ment) -> alookup x Mf = alookup x M) ->
-  tab' = d_tab d ->
-  exists a1 tl1 rest1 st, ensure K a n = Some a1 /\ alookup n (d_tab d) = Some st /\ nth_error gd g = Some st /\ kind K st = Good /\
-    a_map a1 = a_map a /\ a_fwd a1 = a_fwd a /\ a_syn a1 = a_syn a /\
-    SInv K gd (a_sv a1) tl1 rest1 (pnames (a_fwd a)) /\ length tl1 <= S (length tl) /\ In g tl1 /\ (forall x, In x tl -> In x tl1) /\
-    fwd_good K gd (fun x => alookup x (btab (a_sv a1)) <> None) (a_fwd a) /\
-    (alookup g (btab (a_sv a1)) <> None \/ In g (pnames (a_fwd a))) /\
+Lemma li_ensure a M d n os its known b tl rest drs g st :
+  LI K gd Mf a M d os its known b tl rest drs ->
+  nth_error gd g = Some st -> (In g tl \/ 0 < b) ->
+  exists tl1 rest1, kind K st = Good /\
+    a_map (ensure K a n g st) = a_map a /\ a_fwd (ensure K a n g st) = a_fwd a /\ a_syn (ensure K a n g st) = a_syn a /\
+    SInv K gd (a_sv (ensure K a n g st)) tl1 rest1 (pnames (a_fwd a)) /\ length tl1 <= S (length tl) /\ In g tl1 /\ (forall x, In x tl -> In x tl1) /\
+    fwd_good K gd (fun x => alookup x (btab (a_sv (ensure K a n g st))) <> None) (a_fwd a) /\
+    (alookup g (btab (a_sv (ensure K a n g st))) <> None \/ In g (pnames (a_fwd a))) /\
     (In g tl -> length tl1 <= length tl).
 Proof.
-  intros [Hbrel Hok Hskip Hnj Hm1 Hm2 Hmok Hsrv Hbud Htouch Hrefs Hfwd Hexec Hport Hpg Hnorm] HM Htab Hb Hstable _.
-  destruct Hnj as (J1 & J2 & J3).
-  assert (Hnc : ~ In n closed) by (intros X; apply Htab; auto).
-  pose proof (J1 n Hnc) as Hx. unfold mapx in Hx. rewrite HM in Hx. cbn in Hx.
-  assert (Ha : alookup n (a_map a) = Some (g, st0)).
-  { rewrite Hm1 by assumption. rewrite Hstable by (left; reflexivity). exact HM. }
-  assert (Hgd : nth_error gd g = Some st0) by (eapply Hmok; apply alookup_In; exact Ha).
-  unfold ensure. rewrite Ha.
+  intros [Hbrel Hok Hskip Hnj Hmap Hsrv Hbud Htouch Hrefs Hfwd Hexec Hport Hpg Hnorm] Hgd Hb.
+  unfold ensure.
   assert (Hroom : In g (tl ++ rest) \/ length tl < cs K) by (destruct Hb as [X|X]; [left; apply in_app_iff; auto | right; lia]).
-  destruct (register_good K gd univ (a_sv a) tl rest (pnames (a_fwd a)) g st0 true Hcs Hgood Hsrv Hroom Hgd ltac:(discriminate))
+  destruct (register_good K gd univ (a_sv a) tl rest (pnames (a_fwd a)) g st true Hcs Hgood Hsrv Hroom Hgd ltac:(discriminate))
     as (sv' & tl' & rest' & Hreg & HS' & Hgtl & Hsub & Hl & Hframe & Hdef & Hsame).
-  rewrite Hreg. exists (mkAcc (a_map a) sv' (ppromote (a_pl a) (hash K st0)) (a_fwd a) (a_syn a)), tl', rest', st0.
-  cbn [a_map a_sv a_pl a_fwd a_syn].
-  split; [reflexivity|]. split; [symmetry; exact Hx|]. split; [exact Hgd|]. split; [eapply gd_good_kind; eauto|].
+  rewrite Hreg. exists tl', rest'. cbn [a_map a_sv a_pl a_fwd a_syn].
+  split; [eapply gd_good_kind; eauto|].
   split; [reflexivity|]. split; [reflexivity|]. split; [reflexivity|]. split; [exact HS'|]. split; [exact Hl|].
   split; [exact Hgtl|]. split; [exact Hsub|]. split; [|split; [apply Hdef; reflexivity | exact Hsame]].
   eapply fwd_good_ext; [|exact Hfwd]. intros x Hx'. cbn. rewrite Hframe; [tauto | auto].
 Qed.
 
-Lemma batch_tail_stable M0 os its ment tab pf b :
-  brel gd M0 os its Mf -> batch_ok K tab ment pf b os = true -> forall x, In x ment -> alookup x Mf = alookup x M0.
-Proof. intros. eapply brel_ment_stable; eauto. Qed.
-
-Lemma li_step_bind a M d c n os g n' its ment closed b tl rest drs :
-  LI K gd Mf a M d (Bind c n :: os) (IBind g n' :: its) ment closed b tl rest drs ->
-  exists a1 tl1 rest1, sitem K a (IBind g n') = Some a1 /\
-    LI K gd Mf a1 M (fst (dstep K d (Bind c n))) os its (n :: ment) closed (if mem n ment then b else b - 1) tl1 rest1 (drs ++ snd (dstep K d (Bind c n))).
+Lemma li_step_bind a M d c n os g st n' its known b tl rest drs :
+  LI K gd Mf a M d (Bind c n :: os) (IBind g st n' :: its) known b tl rest drs ->
+  exists tl1 rest1,
+    LI K gd Mf (sitem K a (IBind g st n')) M (fst (dstep K d (Bind c n))) os its (n :: known) (if mem n known then b else b - 1) tl1 rest1
+       (drs ++ snd (dstep K d (Bind c n))).
 Proof.
-  intros HLI. pose proof HLI as [Hbrel Hok Hskip Hnj Hm1 Hm2 Hmok Hsrv Hbud Htouch Hrefs Hfwd Hexec Hport Hpg Hnorm].
-  cbn in Hbrel. destruct Hbrel as (-> & [st0 HM] & Hbrel). cbn in Hok.
-  rewrite !andb_true_iff in Hok. destruct Hok as ((Hl & Hb) & Hok).
-  assert (Htab : alookup n (d_tab d) <> None) by (destruct (alookup n (d_tab d)); congruence).
-  assert (Hncl : ~ In n closed) by (intros X; apply Htab; apply Hnj; exact X).
-  assert (Hb' : (mem n ment = true /\ In g tl) \/ (mem n ment = false /\ 0 < b)).
-  { destruct (mem n ment) eqn:Em.
-    - left. split; auto. apply mem_In in Em. destruct (Htouch n Em Hncl) as (g0 & st1 & A & B). rewrite HM in A. inversion A; subst. exact B.
+  intros HLI. pose proof HLI as [Hbrel Hok Hskip Hnj Hmap Hsrv Hbud Htouch Hrefs Hfwd Hexec Hport Hpg Hnorm].
+  cbn in Hbrel. destruct Hbrel as (-> & HM & Hgd & Hbrel). cbn [batch_ok] in Hok.
+  apply andb3 in Hok as (Hl & Hb & Hok).
+  assert (Hst : alookup n (d_tab d) = Some st).
+  { pose proof (Hnj n) as X. unfold mapx in X. rewrite HM in X. cbn in X. congruence. }
+  assert (Hb' : (mem n known = true /\ In g tl) \/ (mem n known = false /\ 0 < b)).
+  { destruct (mem n known) eqn:Em.
+    - left. split; auto. apply mem_In in Em. destruct (Htouch n Em) as (g0 & st1 & A & B). rewrite HM in A. inversion A; subst. exact B.
     - right. split; auto. cbn in Hb. destruct b; [discriminate | lia]. }
   assert (Hb2 : In g tl \/ 0 < b) by (destruct Hb' as [[_ X]|[_ X]]; auto).
-  destruct (li_ensure a M d n _ _ ment closed b tl rest drs g st0 (d_tab d) HLI HM Htab Hb2
-              (batch_tail_stable M os its (n :: ment) (d_tab d) true _ Hbrel Hok) eq_refl)
-    as (a1 & tl1 & rest1 & st & He & Hst & Hgd & Hk & Ea & Ef & Es & HS' & Hlen & Hgtl & Hsub & Hfg & Hdef & Hsame).
-  cbn [sitem]. rewrite He. eexists _, tl1, rest1. split; [reflexivity|].
+  destruct (li_ensure a M d n _ _ known b tl rest drs g st HLI Hgd Hb2)
+    as (tl1 & rest1 & Hk & Ea & Ef & Es & HS' & Hlen & Hgtl & Hsub & Hfg & Hdef & Hsame).
+  cbn [sitem]. exists tl1, rest1.
   unfold dstep. rewrite Hskip, Hst. cbn [fst snd].
-  destruct Hnj as (J1 & J2 & J3).
   constructor; cbn [a_map a_sv a_pl a_fwd a_syn d_tab d_portal d_skip oflag]; auto.
-  - unfold NJ. csplits; auto. intros x Hx. right. auto.
-  - rewrite Ea. exact Hm1.
-  - rewrite Ea. exact Hm2.
-  - rewrite Ea. exact Hmok.
+  - rewrite Ea. exact Hmap.
   - rewrite Ef, pnames_app. cbn. rewrite app_nil_r. exact HS'.
   - destruct Hb' as [[Em X]|[Em X]]; rewrite Em; [specialize (Hsame X); lia | lia].
-  - intros n0 [<-|Hn0] Hc0.
-    + exists g, st0. split; [exact HM | exact Hgtl].
-    + destruct (Htouch n0 Hn0 Hc0) as (g0 & st1 & A & B). exists g0, st1. split; auto.
+  - intros n0 [<-|Hn0].
+    + exists g, st. split; [exact HM | exact Hgtl].
+    + destruct (Htouch n0 Hn0) as (g0 & st1 & A & B). exists g0, st1. split; auto.
   - intros x Hx. rewrite Ef, refs_app in Hx. apply in_app_iff in Hx as [Hx|[<-|[]]]; auto.
   - rewrite Ef. apply fwd_good_snoc; auto.
   - rewrite Ef. change false with (oflag None). apply fexec_ok_app with (gd := gd); [exact Hexec | discriminate].
@@ -1139,37 +1087,33 @@ Proof.
   - rewrite Ef, Es, fexp_app. cbn [fexp]. rewrite app_assoc. apply norm_snoc_congr. exact Hnorm.
 Qed.
 
-Lemma li_step_desc a M d c n os g n' its ment closed b tl rest drs :
-  LI K gd Mf a M d (Describe c n :: os) (IDesc g n' :: its) ment closed b tl rest drs ->
-  exists a1 tl1 rest1, sitem K a (IDesc g n') = Some a1 /\
-    LI K gd Mf a1 M (fst (dstep K d (Describe c n))) os its (n :: ment) closed (if mem n ment then b else b - 1) tl1 rest1 (drs ++ snd (dstep K d (Describe c n))).
+Lemma li_step_desc a M d c n os g st n' its known b tl rest drs :
+  LI K gd Mf a M d (Describe c n :: os) (IDesc g st n' :: its) known b tl rest drs ->
+  exists tl1 rest1,
+    LI K gd Mf (sitem K a (IDesc g st n')) M (fst (dstep K d (Describe c n))) os its (n :: known) (if mem n known then b else b - 1) tl1 rest1
+       (drs ++ snd (dstep K d (Describe c n))).
 Proof.
-  intros HLI. pose proof HLI as [Hbrel Hok Hskip Hnj Hm1 Hm2 Hmok Hsrv Hbud Htouch Hrefs Hfwd Hexec Hport Hpg Hnorm].
-  cbn in Hbrel. destruct Hbrel as (-> & [st0 HM] & Hbrel). cbn in Hok.
-  rewrite !andb_true_iff in Hok. destruct Hok as ((Hl & Hb) & Hok).
-  assert (Htab : alookup n (d_tab d) <> None) by (destruct (alookup n (d_tab d)); congruence).
-  assert (Hncl : ~ In n closed) by (intros X; apply Htab; apply Hnj; exact X).
-  assert (Hb' : (mem n ment = true /\ In g tl) \/ (mem n ment = false /\ 0 < b)).
-  { destruct (mem n ment) eqn:Em.
-    - left. split; auto. apply mem_In in Em. destruct (Htouch n Em Hncl) as (g0 & st1 & A & B). rewrite HM in A. inversion A; subst. exact B.
+  intros HLI. pose proof HLI as [Hbrel Hok Hskip Hnj Hmap Hsrv Hbud Htouch Hrefs Hfwd Hexec Hport Hpg Hnorm].
+  cbn in Hbrel. destruct Hbrel as (-> & HM & Hgd & Hbrel). cbn [batch_ok] in Hok.
+  apply andb3 in Hok as (Hl & Hb & Hok).
+  assert (Hst : alookup n (d_tab d) = Some st).
+  { pose proof (Hnj n) as X. unfold mapx in X. rewrite HM in X. cbn in X. congruence. }
+  assert (Hb' : (mem n known = true /\ In g tl) \/ (mem n known = false /\ 0 < b)).
+  { destruct (mem n known) eqn:Em.
+    - left. split; auto. apply mem_In in Em. destruct (Htouch n Em) as (g0 & st1 & A & B). rewrite HM in A. inversion A; subst. exact B.
     - right. split; auto. cbn in Hb. destruct b; [discriminate | lia]. }
   assert (Hb2 : In g tl \/ 0 < b) by (destruct Hb' as [[_ X]|[_ X]]; auto).
-  destruct (li_ensure a M d n _ _ ment closed b tl rest drs g st0 (d_tab d) HLI HM Htab Hb2
-              (batch_tail_stable M os its (n :: ment) (d_tab d) (oflag (d_portal d)) _ Hbrel Hok) eq_refl)
-    as (a1 & tl1 & rest1 & st & He & Hst & Hgd & Hk & Ea & Ef & Es & HS' & Hlen & Hgtl & Hsub & Hfg & Hdef & Hsame).
-  cbn [sitem]. rewrite He. eexists _, tl1, rest1. split; [reflexivity|].
+  destruct (li_ensure a M d n _ _ known b tl rest drs g st HLI Hgd Hb2)
+    as (tl1 & rest1 & Hk & Ea & Ef & Es & HS' & Hlen & Hgtl & Hsub & Hfg & Hdef & Hsame).
+  cbn [sitem]. exists tl1, rest1.
   unfold dstep. rewrite Hskip, Hst. cbn [fst snd].
-  destruct Hnj as (J1 & J2 & J3).
   constructor; cbn [a_map a_sv a_pl a_fwd a_syn d_tab d_portal d_skip oflag]; auto.
-  - unfold NJ. csplits; auto. intros x Hx. right. auto.
-  - rewrite Ea. exact Hm1.
-  - rewrite Ea. exact Hm2.
-  - rewrite Ea. exact Hmok.
+  - rewrite Ea. exact Hmap.
   - rewrite Ef, pnames_app. cbn. rewrite app_nil_r. exact HS'.
   - destruct Hb' as [[Em X]|[Em X]]; rewrite Em; [specialize (Hsame X); lia | lia].
-  - intros n0 [<-|Hn0] Hc0.
-    + exists g, st0. split; [exact HM | exact Hgtl].
-    + destruct (Htouch n0 Hn0 Hc0) as (g0 & st1 & A & B). exists g0, st1. split; auto.
+  - intros n0 [<-|Hn0].
+    + exists g, st. split; [exact HM | exact Hgtl].
+    + destruct (Htouch n0 Hn0) as (g0 & st1 & A & B). exists g0, st1. split; auto.
   - intros x Hx. rewrite Ef, refs_app in Hx. apply in_app_iff in Hx as [Hx|[<-|[]]]; auto.
   - rewrite Ef. apply fwd_good_snoc; auto.
   - rewrite Ef. change false with (oflag None). apply fexec_ok_app with (gd := gd); [exact Hexec | discriminate].
@@ -1177,25 +1121,22 @@ Proof.
   - rewrite Ef, Es, fexp_app. cbn [fexp]. rewrite (nth_of_gd _ _ _ Hgd). rewrite app_assoc. apply norm_snoc_congr. exact Hnorm.
 Qed.
 
-Lemma li_step_exec a M d c os its ment closed b tl rest drs :
-  LI K gd Mf a M d (Execute c :: os) (IExec :: its) ment closed b tl rest drs ->
-  exists a1, sitem K a IExec = Some a1 /\
-    LI K gd Mf a1 M (fst (dstep K d (Execute c))) os its ment closed b tl rest (drs ++ snd (dstep K d (Execute c))).
+Lemma li_step_exec a M d c os its known b tl rest drs :
+  LI K gd Mf a M d (Execute c :: os) (IExec :: its) known b tl rest drs ->
+  LI K gd Mf (sitem K a IExec) M (fst (dstep K d (Execute c))) os its known b tl rest (drs ++ snd (dstep K d (Execute c))).
 Proof.
-  intros [Hbrel Hok Hskip Hnj Hm1 Hm2 Hmok Hsrv Hbud Htouch Hrefs Hfwd Hexec Hport Hpg Hnorm].
-  cbn in Hbrel. cbn in Hok. rewrite !andb_true_iff in Hok. destruct Hok as (Hpf & Hok).
+  intros [Hbrel Hok Hskip Hnj Hmap Hsrv Hbud Htouch Hrefs Hfwd Hexec Hport Hpg Hnorm].
+  cbn in Hbrel. cbn [batch_ok] in Hok. rewrite !andb_true_iff in Hok. destruct Hok as (Hpf & Hok).
   destruct (d_portal d) as [st|] eqn:Ep; [|discriminate].
   pose proof (Hpg st eq_refl) as Hk.
-  cbn [sitem]. eexists. split; [reflexivity|].
+  cbn [sitem].
   unfold dstep. rewrite Hskip, Ep, Hk. cbn [fst snd].
   constructor; cbn [a_map a_sv a_pl a_fwd a_syn d_tab d_portal d_skip].
   - exact Hbrel.
   - rewrite Ep. exact Hok.
   - exact Hskip.
   - exact Hnj.
-  - exact Hm1.
-  - exact Hm2.
-  - exact Hmok.
+  - exact Hmap.
   - rewrite pnames_app. cbn. rewrite app_nil_r. exact Hsrv.
   - exact Hbud.
   - exact Htouch.
@@ -1207,63 +1148,52 @@ Proof.
   - rewrite fexp_app. cbn [fexp]. rewrite Hport. rewrite app_assoc. apply norm_snoc_congr. exact Hnorm.
 Qed.
 
-Lemma li_step_close a M d c n os n' its ment closed b tl rest drs :
-  LI K gd Mf a M d (Close c n :: os) (IClose n' :: its) ment closed b tl rest drs ->
-  exists a1, sitem K a (IClose n') = Some a1 /\
-    LI K gd Mf a1 M (fst (dstep K d (Close c n))) os its (n :: ment) (n :: closed) b tl rest (drs ++ snd (dstep K d (Close c n))).
+Lemma li_step_close a M d c n os n' its known b tl rest drs :
+  LI K gd Mf a M d (Close c n :: os) (IClose n' :: its) known b tl rest drs ->
+  LI K gd Mf (sitem K a (IClose n')) (aremove n M) (fst (dstep K d (Close c n))) os its (remove_nat n known) b tl rest (drs ++ snd (dstep K d (Close c n))).
 Proof.
-  intros [Hbrel Hok Hskip Hnj Hm1 Hm2 Hmok Hsrv Hbud Htouch Hrefs Hfwd Hexec Hport Hpg Hnorm].
-  cbn in Hbrel. destruct Hbrel as (-> & Hbrel). cbn in Hok. rewrite !andb_true_iff in Hok. destruct Hok as (Hn0 & Hok).
-  apply negb_true_iff in Hn0. cbn [sitem]. rewrite Hn0. eexists. split; [reflexivity|].
+  intros [Hbrel Hok Hskip Hnj Hmap Hsrv Hbud Htouch Hrefs Hfwd Hexec Hport Hpg Hnorm].
+  cbn in Hbrel. destruct Hbrel as (-> & Hbrel). cbn [batch_ok] in Hok. rewrite !andb_true_iff in Hok. destruct Hok as (Hn0 & Hok).
+  apply negb_true_iff in Hn0. rewrite Hn0 in Hbrel. cbn [sitem]. rewrite Hn0.
   unfold dstep. rewrite Hskip. cbn [fst snd].
-  destruct Hnj as (J1 & J2 & J3).
   constructor; cbn [a_map a_sv a_pl a_fwd a_syn d_tab d_portal d_skip oflag]; auto.
-  - unfold NJ. csplits.
-    + intros n0 Hn. rewrite alookup_aremove_neq; [apply J1|]; intros X; apply Hn; [right; exact X | left; auto].
-    + intros n0 [->|Hn]; [apply alookup_aremove_eq|]. destruct (Nat.eq_dec n0 n) as [->|Hne]; [apply alookup_aremove_eq|].
-      rewrite alookup_aremove_neq by assumption. auto.
-    + intros n0 [->|Hn]; [left; reflexivity | right; auto].
-  - intros n0 Hn. rewrite alookup_aremove_neq; [apply Hm1|]; intros X; apply Hn; [right; exact X | left; auto].
-  - intros n0 [->|Hn]; [apply alookup_aremove_eq|]. destruct (Nat.eq_dec n0 n) as [->|Hne]; [apply alookup_aremove_eq|].
-    rewrite alookup_aremove_neq by assumption. auto.
-  - apply map_ok_aremove. exact Hmok.
-  - intros n1 [<-|Hq] Hc0; [exfalso; apply Hc0; left; reflexivity|]. apply Htouch; auto. intros X. apply Hc0. right. exact X.
+  - apply NJ_close. exact Hnj.
+  - intros n1 Hq. apply remove_nat_In in Hq as [Hq Hne]. rewrite alookup_aremove_neq by assumption. apply Htouch. exact Hq.
   - rewrite <- app_assoc. cbn [app]. rewrite norm_move by reflexivity. apply norm_snoc_congr. exact Hnorm.
 Qed.
 
 (* the whole pass *)
-Lemma sitems_sim : forall os its a M d ment closed b tl rest drs,
-  LI K gd Mf a M d os its ment closed b tl rest drs ->
-  exists a' ment' closed' b' tl' rest',
-    sitems K a its = (a', true) /\
-    LI K gd Mf a' Mf (fst (drun K d os)) [] [] ment' closed' b' tl' rest' (drs ++ snd (drun K d os)).
+Lemma sitems_sim : forall os its a M d known b tl rest drs,
+  LI K gd Mf a M d os its known b tl rest drs ->
+  exists known' b' tl' rest',
+    LI K gd Mf (sitems K a its) Mf (fst (drun K d os)) [] [] known' b' tl' rest' (drs ++ snd (drun K d os)).
 Proof.
-  induction os as [|o os IH]; intros its a M d ment closed b tl rest drs HLI.
-  - pose proof (li_brel _ _ _ _ _ _ _ _ _ _ _ _ _ _ HLI) as Hb. destruct its; [|destruct Hb]. cbn in Hb. subst.
-    exists a, ment, closed, b, tl, rest. cbn. rewrite app_nil_r. split; [reflexivity | exact HLI].
-  - pose proof (li_brel _ _ _ _ _ _ _ _ _ _ _ _ _ _ HLI) as Hb.
+  induction os as [|o os IH]; intros its a M d known b tl rest drs HLI.
+  - pose proof (li_brel _ _ _ _ _ _ _ _ _ _ _ _ _ HLI) as Hb. destruct its; [|destruct Hb]. cbn in Hb. subst.
+    exists known, b, tl, rest. cbn. rewrite app_nil_r. exact HLI.
+  - pose proof (li_brel _ _ _ _ _ _ _ _ _ _ _ _ _ HLI) as Hb.
     destruct its as [|it its]; [destruct o; destruct Hb|].
-    cbn [drun sitems].
+    cbn [drun]. unfold sitems. cbn [fold_left]. fold (sitems K (sitem K a it) its).
     destruct o; destruct it; cbn in Hb; try contradiction.
-    + destruct Hb as (-> & _). destruct (li_step_parse _ _ _ _ _ _ _ _ _ _ _ _ _ _ _ _ HLI) as (a1 & tl1 & rest1 & Hs & HLI1).
-      rewrite Hs. destruct (dstep K d (Parse c n st)) as [d1 o1] eqn:Ed. cbn [fst snd] in HLI1.
-      destruct (IH _ _ _ _ _ _ _ _ _ _ HLI1) as (a' & ment' & closed' & b' & tl' & rest' & Hs' & HLI').
+    + destruct Hb as (-> & _). destruct (li_step_parse _ _ _ _ _ _ _ _ _ _ _ _ _ _ _ HLI) as (tl1 & rest1 & HLI1).
+      destruct (dstep K d (Parse c n st)) as [d1 o1] eqn:Ed. cbn [fst snd] in HLI1.
+      destruct (IH _ _ _ _ _ _ _ _ _ HLI1) as (known' & b' & tl' & rest' & HLI').
       destruct (drun K d1 os) as [d2 o2]. cbn [fst snd] in *. rewrite <- app_assoc in HLI'. eauto 10.
-    + destruct (li_step_bind _ _ _ _ _ _ _ _ _ _ _ _ _ _ _ HLI) as (a1 & tl1 & rest1 & Hs & HLI1).
-      rewrite Hs. destruct (dstep K d (Bind c n)) as [d1 o1] eqn:Ed. cbn [fst snd] in HLI1.
-      destruct (IH _ _ _ _ _ _ _ _ _ _ HLI1) as (a' & ment' & closed' & b' & tl' & rest' & Hs' & HLI').
+    + destruct (li_step_bind _ _ _ _ _ _ _ _ _ _ _ _ _ _ _ HLI) as (tl1 & rest1 & HLI1).
+      destruct (dstep K d (Bind c n)) as [d1 o1] eqn:Ed. cbn [fst snd] in HLI1.
+      destruct (IH _ _ _ _ _ _ _ _ _ HLI1) as (known' & b' & tl' & rest' & HLI').
       destruct (drun K d1 os) as [d2 o2]. cbn [fst snd] in *. rewrite <- app_assoc in HLI'. eauto 10.
-    + destruct (li_step_desc _ _ _ _ _ _ _ _ _ _ _ _ _ _ _ HLI) as (a1 & tl1 & rest1 & Hs & HLI1).
-      rewrite Hs. destruct (dstep K d (Describe c n)) as [d1 o1] eqn:Ed. cbn [fst snd] in HLI1.
-      destruct (IH _ _ _ _ _ _ _ _ _ _ HLI1) as (a' & ment' & closed' & b' & tl' & rest' & Hs' & HLI').
+    + destruct (li_step_desc _ _ _ _ _ _ _ _ _ _ _ _ _ _ _ HLI) as (tl1 & rest1 & HLI1).
+      destruct (dstep K d (Describe c n)) as [d1 o1] eqn:Ed. cbn [fst snd] in HLI1.
+      destruct (IH _ _ _ _ _ _ _ _ _ HLI1) as (known' & b' & tl' & rest' & HLI').
       destruct (drun K d1 os) as [d2 o2]. cbn [fst snd] in *. rewrite <- app_assoc in HLI'. eauto 10.
-    + destruct (li_step_exec _ _ _ _ _ _ _ _ _ _ _ _ HLI) as (a1 & Hs & HLI1).
-      rewrite Hs. destruct (dstep K d (Execute c)) as [d1 o1] eqn:Ed. cbn [fst snd] in HLI1.
-      destruct (IH _ _ _ _ _ _ _ _ _ _ HLI1) as (a' & ment' & closed' & b' & tl' & rest' & Hs' & HLI').
+    + pose proof (li_step_exec _ _ _ _ _ _ _ _ _ _ _ HLI) as HLI1.
+      destruct (dstep K d (Execute c)) as [d1 o1] eqn:Ed. cbn [fst snd] in HLI1.
+      destruct (IH _ _ _ _ _ _ _ _ _ HLI1) as (known' & b' & tl' & rest' & HLI').
       destruct (drun K d1 os) as [d2 o2]. cbn [fst snd] in *. rewrite <- app_assoc in HLI'. eauto 10.
-    + destruct (li_step_close _ _ _ _ _ _ _ _ _ _ _ _ _ _ HLI) as (a1 & Hs & HLI1).
-      rewrite Hs. destruct (dstep K d (Close c n)) as [d1 o1] eqn:Ed. cbn [fst snd] in HLI1.
-      destruct (IH _ _ _ _ _ _ _ _ _ _ HLI1) as (a' & ment' & closed' & b' & tl' & rest' & Hs' & HLI').
+    + destruct Hb as (-> & _). pose proof (li_step_close _ _ _ _ _ _ _ _ _ _ _ _ _ HLI) as HLI1.
+      destruct (dstep K d (Close c n)) as [d1 o1] eqn:Ed. cbn [fst snd] in HLI1.
+      destruct (IH _ _ _ _ _ _ _ _ _ HLI1) as (known' & b' & tl' & rest' & HLI').
       destruct (drun K d1 os) as [d2 o2]. cbn [fst snd] in *. rewrite <- app_assoc in HLI'. eauto 10.
 Qed.
 
@@ -1276,7 +1206,7 @@ Definition SrvInv (K : cfg) (sv : server) : Prop :=
   NoDup (lru sv) /\ length (lru sv) <= cs K /\ (forall g, In g (lru sv) <-> alookup g (btab sv) <> None).
 
 Definition crel (gd : list nat) (tab : list (nat * nat)) (buf : list op) (cm : cmapT) (cb : list item) : Prop :=
-  exists M0, (forall n, mapx M0 n = alookup n tab) /\ brel gd M0 buf cb cm.
+  exists M0, NJ M0 tab /\ brel gd M0 buf cb cm.
 
 Definition GInv (K : cfg) (univ : list nat) (w : world) (S : spec_state) : Prop :=
   WInv K w /\ gd_good K univ (gdef w) /\ (forall s, SrvInv K (servers w s)) /\
@@ -1299,11 +1229,13 @@ Lemma final_exchange K gd univ sv tl rest fwd :
 Proof.
   intros Hg [H1 H2 H3 H4 H5 H6 H7] Hf He. unfold exchange.
   destruct (brun_good K gd fwd (btab sv) None H7 (tab_good_of K univ gd _ Hg H7) Hf He ltac:(discriminate))
-    as (t' & Hr & Ht' & _ & Hd).
+    as (t' & Hr & Ht' & _ & Hd & Hrows).
   rewrite brun_app, Hr. cbn [brun bstep b_tab app].
-  assert (Hne : ~ In RErr (fexp gd None fwd ++ [RZ])).
-  { intros X. apply in_app_iff in X as [X|[X|[]]]; [|discriminate]. revert X. apply (fexp_noerr gd fwd None). exact He. }
-  destruct (recv_same (lru sv) (queue sv) _ Hne) as [q' Hq]. rewrite Hq.
+  assert (Hne : quiet K (fexp gd None fwd ++ [RZ])).
+  { split.
+    - intros X. apply in_app_iff in X as [X|[X|[]]]; [|discriminate]. revert X. apply (fexp_noerr gd fwd None). exact He.
+    - intros st X. apply in_app_iff in X as [X|[X|[]]]; [auto | discriminate]. }
+  destruct (recv_same K (lru sv) (queue sv) _ Hne) as [q' Hq]. rewrite Hq.
   eexists. split; [reflexivity|]. split; [|exact Ht']. unfold SrvInv. cbn [lru btab]. rewrite H1. split; [exact H2|]. split; [exact H3|].
   intros g. rewrite H4. symmetry. apply Hd.
 Qed.
@@ -1334,16 +1266,14 @@ Proof.
   destruct (Hcl c) as [Hal (M0 & HM0 & Hbrel)].
   pose proof HW as (_ & HWc & HWs).
   assert (HLI : LI K (gdef w) (cmap (clients w c)) (mkAcc (cmap (clients w c)) (servers w s) (plru w) [] []) M0
-                   (mkD (s_tab (S c)) None false) (s_buf (S c)) (cbuf (clients w c)) [] [] (cs K) [] (lru (servers w s)) []).
+                   (mkD (s_tab (S c)) None false) (s_buf (S c)) (cbuf (clients w c)) [] (cs K) [] (lru (servers w s)) []).
   { destruct (Hsrv s) as (Hnd & Hlen & Hdom).
     constructor; cbn [a_map a_sv a_pl a_fwd a_syn d_tab d_portal d_skip oflag pnames refs flat_map fwd_good fexec_ok fportal fexp app length].
     - exact Hbrel.
     - exact Hb.
     - reflexivity.
-    - unfold NJ. csplits; auto; intros ? [].
-    - intros; reflexivity.
-    - intros ? [].
-    - apply HWc.
+    - exact HM0.
+    - reflexivity.
     - constructor; cbn [app].
       + reflexivity.
       + exact Hnd.
@@ -1360,19 +1290,16 @@ Proof.
     - reflexivity.
     - intros st X; discriminate.
     - reflexivity. }
-  destruct (sitems_sim K (gdef w) univ (cmap (clients w c)) Hcs Hgood _ _ _ _ _ _ _ _ _ _ _ HLI)
-    as (a' & ment' & closed' & b' & tl' & rest' & Hs & HLI').
+  destruct (sitems_sim K (gdef w) univ (cmap (clients w c)) Hcs Hgood _ _ _ _ _ _ _ _ _ _ HLI)
+    as (known' & b' & tl' & rest' & HLI').
   cbn [app] in HLI'.
-  cbn [step spec_step] in *. rewrite Hal in *. cbn [negb] in *. rewrite Hs in *.
+  cbn [step spec_step] in *. rewrite Hal in *. cbn [negb] in *.
+  set (a' := sitems K (mkAcc (cmap (clients w c)) (servers w s) (plru w) [] []) (cbuf (clients w c))) in *.
   destruct (drun K (mkD (s_tab (S c)) None false) (s_buf (S c))) as [d' rs] eqn:Ed. cbn [fst snd] in HLI'.
-  pose proof HLI' as [Lbrel Lok Lskip Lnj Lm1 Lm2 Lmok Lsrv Lbud Ltouch Lrefs Lfwd Lexec Lport Lpg Lnorm].
+  pose proof HLI' as [Lbrel Lok Lskip Lnj Lmap Lsrv Lbud Ltouch Lrefs Lfwd Lexec Lport Lpg Lnorm].
   cbn in Lbrel.
-  (* the client's new relation *)
   assert (Hcrel : crel (gdef w) (d_tab d') [] (a_map a') []).
-  { exists (a_map a'). split; [|reflexivity]. intros n. destruct Lnj as (J1 & J2 & J3).
-    destruct (in_dec Nat.eq_dec n closed') as [Hin|Hnin].
-    - unfold mapx. rewrite (Lm2 n Hin), (J2 n Hin). reflexivity.
-    - unfold mapx. rewrite (Lm1 n Hnin). apply (J1 n Hnin). }
+  { exists (a_map a'). split; [|reflexivity]. rewrite Lmap. exact Lnj. }
   assert (Hfin : forall sv' (w' : world),
              clients w' = upd (clients w) c (mkClient (a_map a') [] true) -> servers w' = upd (servers w) s sv' ->
              gdef w' = gdef w -> WInv K w' -> SrvInv K sv' ->
@@ -1402,14 +1329,15 @@ Qed.
 
 (* what the guard says about the op being buffered *)
 Lemma last_op_facts gd M0 os its Mf tab b o :
-  brel gd M0 os its Mf -> (forall x, mapx M0 x = alookup x tab) ->
+  brel gd M0 os its Mf -> NJ M0 tab ->
   batch_ok K tab [] false b (os ++ [o]) = true ->
-  match o with Parse _ _ st => kind K st = Good | _ => True end.
+  match o with Parse _ _ st => kind K st = Good | Close _ n => n <> 0 | _ => True end.
 Proof.
   intros H H0 Hb.
-  destruct (walk K gd os M0 its Mf tab [] [] false b [o] H) as (tab' & ment' & closed' & pf' & b' & _ & Hb'); auto.
-  { unfold NJ. csplits; auto; intros ? []. }
-  destruct o; auto. cbn [batch_ok] in Hb'. apply andb4 in Hb' as (Hk & _).
+  destruct (walk K gd os M0 its Mf tab [] false b [o] H H0 Hb) as (tab' & known' & pf' & b' & _ & Hb').
+  destruct o; auto; cbn [batch_ok] in Hb'.
+  2:{ rewrite !andb_true_iff in Hb'. destruct Hb' as (Hn & _). apply negb_true_iff in Hn. apply Nat.eqb_neq in Hn. exact Hn. }
+  apply andb3 in Hb' as (Hk & _).
   destruct (kind K st); congruence.
 Qed.
 
@@ -1478,14 +1406,16 @@ Proof.
     rewrite Hc1. reflexivity.
   - (* Bind *)
     destruct (Hcl c) as [Hal (M0 & H0 & Hbrel)].
-    destruct (buffered_lookup K _ _ _ _ _ _ _ n (Bind c n) ltac:(right; right; exists c; auto) Hbrel H0 Hb) as (g & st & Hl).
+    destruct (buffered_lookup K _ _ _ _ _ _ _ n (Bind c n) ltac:(exists c; auto) Hbrel H0 Hb) as (g & st & Hl).
+    assert (Hgd : nth_error (gdef w) g = Some st) by (destruct HW as (_ & HWc & _); eapply (proj1 (HWc c)); apply alookup_In; exact Hl).
     cbn [step] in *. rewrite Hal in *. cbn [negb] in *. rewrite Hl in *. cbn [fst snd] in *. split; [reflexivity|].
-    eapply (ginv_buffer w S c (Bind c n) (IBind g n)); eauto; cbn; eauto.
+    eapply (ginv_buffer w S c (Bind c n) (IBind g st n)); eauto; cbn; auto.
   - (* Describe *)
     destruct (Hcl c) as [Hal (M0 & H0 & Hbrel)].
-    destruct (buffered_lookup K _ _ _ _ _ _ _ n (Describe c n) ltac:(right; right; exists c; auto) Hbrel H0 Hb) as (g & st & Hl).
+    destruct (buffered_lookup K _ _ _ _ _ _ _ n (Describe c n) ltac:(exists c; auto) Hbrel H0 Hb) as (g & st & Hl).
+    assert (Hgd : nth_error (gdef w) g = Some st) by (destruct HW as (_ & HWc & _); eapply (proj1 (HWc c)); apply alookup_In; exact Hl).
     cbn [step] in *. rewrite Hal in *. cbn [negb] in *. rewrite Hl in *. cbn [fst snd] in *. split; [reflexivity|].
-    eapply (ginv_buffer w S c (Describe c n) (IDesc g n)); eauto; cbn; eauto.
+    eapply (ginv_buffer w S c (Describe c n) (IDesc g st n)); eauto; cbn; auto.
   - (* Execute *)
     destruct (Hcl c) as [Hal _].
     cbn [step] in *. rewrite Hal in *. cbn [negb fst snd] in *. split; [reflexivity|].
@@ -1532,7 +1462,7 @@ Proof.
   - apply winv0.
   - constructor.
   - intros s. unfold SrvInv. cbn. csplits; [constructor | lia | intros g; split; [intros [] | intros X; congruence]].
-  - intros c. cbn. split; [reflexivity|]. exists []. split; [reflexivity | reflexivity].
+  - intros c. cbn. split; [reflexivity|]. exists []. split; [intros n; reflexivity | reflexivity].
 Qed.
 
 (** * The theorems *)
